@@ -71,7 +71,10 @@ FIX_LOOKUP = {
 USER_TPL = {
     "Any.j2": "{% from 'macros.j2' import banner %}{{ banner(T) }}namespace {{ T.full_namespace }}\n"
               "{% for t in T.data_types %}  has {{ t.full_name }}.{{ t.version.major }}.{{ t.version.minor }}\n{% endfor %}",
-    "CompositeType.j2": "{% from 'macros.j2' import banner %}{{ banner(T) }}{% include 'inc/fields.j2' %}\nend\n",
+    "CompositeType.j2": "{% from 'macros.j2' import banner %}{% from 'serialization.j2' import wire %}{{ banner(T) }}{{ wire(T) }}"
+                        "{% include 'inc/fields.j2' %}\nend\n",
+    # a user template may carry any name, also one the built-in sets give a special role
+    "serialization.j2": "{% macro wire(t) %}wire image of {{ t.full_name }}: {{ t.bit_length_set.min }}..{{ t.bit_length_set.max }} bits\n{% endmacro %}\n",
     "ServiceType.j2": "{% from 'macros.j2' import banner %}{{ banner(T) }}request max {{ T.request_type.bit_length_set.max }} bits, "
                       "response extent {{ T.response_type.extent }} bits\n",
     "macros.j2": "{% macro banner(t) %}generated for {{ t.full_name }}\n{% endmacro %}\n",
